@@ -66,7 +66,7 @@ def run(rep):
 
 def run_batch(rep, rng, quick, lo, hi, totals):
     # 1. TLC enumerates the case space and checks the laws of the grammar on every case
-    res = tlc.run(rep.pid, "C13", ENUM_CFG, env={"TIER": rep.tier, "O1LO": lo, "O1HI": hi}, timeout=1500, tag="enum")
+    res = tlc_run_retry(rep, "C13", ENUM_CFG, env={"TIER": rep.tier, "O1LO": lo, "O1HI": hi}, timeout=1500, tag="enum")
     rep.add_tlc("C13.Enum+Laws(JsGrammar) roots %d..%d" % (lo, hi), res)
     seen, cases = set(), []
     for c in res.records:
@@ -179,6 +179,20 @@ def run_batch(rep, rng, quick, lo, hi, totals):
         rep.mismatch(show(r, ecases[i]), {"why": v["why"], "kind": r["kind"], "a": r["a"], "src": (ecases[i]["parse"] or ecases[i]["evals"])[-1],
                                           "dev": v.get("dev", ""), "act": r["act"], "ev0": r["ev0"], "ev1": r["ev1"], "case": {"m": r["kind"]}},
                      dev=v.get("dev", ""))
+
+
+def tlc_run_retry(rep, module, cfg, **kw):
+    """tlc.run, once more if the JVM died or reported an error without a verdict (machine under memory pressure)"""
+    res = tlc.run(rep.pid, module, cfg, **kw)
+    if (res.errors or res.rc not in (0, 12, 13)) and not res.violated:
+        import sys
+        from harness.common import workdir
+        with open(os.path.join(workdir(rep.pid), "tlc_errors.txt"), "a") as f:
+            f.write("rc=%s errors=%r tag=%s\n" % (res.rc, res.errors, kw.get("tag")))
+            f.write("\n".join(l for l in res.stdout.splitlines() if not l.startswith('"{'))[-3000:] + "\n----\n")
+        print("TLC run %s failed (rc=%s), retrying once" % (kw.get("tag"), res.rc), file=sys.stderr)
+        res = tlc.run(rep.pid, module, cfg, **kw)
+    return res
 
 
 def judge_retry(rep, recs, module="C13"):
